@@ -4,6 +4,7 @@ C04 — references deliver the configurable or a fresh result, in the right scop
 import Gin.Machine
 import Gin.Lemmas.Eval
 import Gin.Lemmas.Call
+import Gin.Lemmas.EvalRel
 
 namespace Gin.C04
 open Gin Gin.AList
@@ -82,9 +83,81 @@ theorem query_after_call (st : State) (sel : Sel) (enter : List ScopeArg) (args 
   unfold State.query State.parseKey
   rw [f.registry, f.config]
 
+/-- The probes' counters never go down across an evaluation or a consuming call, however deeply the
+    references in it are nested (induction on the evaluation depth, `Lemmas/EvalRel.lean`). -/
+theorem eval_counts_monotone (fuel : Nat) (st st' : State) (σ : Scope) (v v' : Val)
+    (h : evalVal fuel st σ v = .ok (st', v')) : CallsMono st st' :=
+  (eval_callsMono fuel).1 st σ v st' v' h
+
+theorem call_counts_monotone (fuel : Nat) (st st' : State) (sel : Sel) (σ : Scope) (args : List Val)
+    (kwargs : AList String Val) (v : Val) (h : callCfg fuel st sel σ args kwargs = .ok (st', v)) :
+    CallsMono st st' :=
+  (eval_callsMono fuel).2.2.2.2 st sel σ args kwargs st' v h
+
+/-- `@name()` is called anew each time. Two evaluations of an evaluated reference to the same
+    configurable (any spelling of scope, any ambient scope, any nesting depth `f₁`, `f₂`) — within one
+    consuming call or in different ones, with anything at all evaluated or called in between (the
+    only thing asked of the intermediate steps `s₁ → s₁'` is what `eval_counts_monotone` /
+    `call_counts_monotone` give for every one of them) — deliver *different* results: the second is
+    the result of a later run of the configurable, never a cached copy of the first. -/
+theorem evaluated_ref_fresh (f₁ f₂ : Nat) (s s₁ s₁' s₂ : State) (σ σ' : Scope)
+    (sc sc' : List String) (sel : Sel) (r₁ r₂ : Val)
+    (hm : (sel == State.macroSel) = false) (hc : (sel == State.constSel) = false)
+    (h₁ : evalVal (f₁ + 1) s σ (.ref sc sel true) = .ok (s₁, r₁))
+    (hmid : CallsMono s₁ s₁')
+    (h₂ : evalVal (f₂ + 1) s₁' σ' (.ref sc' sel true) = .ok (s₂, r₂)) : r₁ ≠ r₂ := by
+  simp only [evalVal, if_true] at h₁ h₂
+  obtain ⟨n₁, e₁, _, c₁⟩ := callCfg_probe _ _ _ _ _ _ _ _ hm hc h₁
+  obtain ⟨n₂, e₂, l₂, _⟩ := callCfg_probe _ _ _ _ _ _ _ _ hm hc h₂
+  have := hmid sel
+  subst e₁ e₂
+  intro he
+  simp only [Val.result.injEq, true_and] at he
+  omega
+
+/-- In particular the two occurrences of one evaluated reference inside one list value are two runs:
+    the list a consumer receives holds two different results. -/
+theorem same_ref_twice_two_runs (f : Nat) (s s' : State) (σ : Scope) (sc : List String) (sel : Sel)
+    (v : Val) (hm : (sel == State.macroSel) = false) (hc : (sel == State.constSel) = false)
+    (h : evalVal (f + 3) s σ (.list [.ref sc sel true, .ref sc sel true]) = .ok (s', v)) :
+    ∃ a b, v = .list [a, b] ∧ a ≠ b := by
+  simp only [evalVal, evalVals] at h
+  split at h
+  · rename_i es' ys hh
+    split at hh
+    · cases hh
+    · rename_i s₁ a h₁
+      split at hh
+      · cases hh
+      · rename_i s₂ rest h₂
+        split at h₂
+        · cases h₂
+        · rename_i s₃ b h₃
+          cases f with
+          | zero => simp [evalVals] at h₂
+          | succ f' =>
+            simp only [evalVals, Except.ok.injEq, Prod.mk.injEq] at h₂ hh h
+            refine ⟨a, b, ?_, ?_⟩
+            · rw [← h.2, ← hh.2, ← h₂.2]
+            · have e₁ : evalVal (f' + 1 + 1) s σ (.ref sc sel true) = .ok (s₁, a) := by
+                simpa [evalVal] using h₁
+              have e₂ : evalVal (f' + 1) s₁ σ (.ref sc sel true) = .ok (s₃, b) := by
+                simpa [evalVal] using h₃
+              exact evaluated_ref_fresh _ _ _ _ _ _ _ _ _ _ _ _ _ hm hc e₁ (CallsMono.refl _) e₂
+  · cases h
+
 /-! Non-vacuity: the evaluator on a concrete nested value (plain reference inside a list). -/
 example : evalVal 10 initState ["a"] (.list [.ref ["s"] ["m", "f"] false, .int 1]) =
     .ok (initState, .list [.fn ["m", "f"] ["s"], .int 1]) := by
   simp [evalVal, evalVals]
+
+/-! Non-vacuity of the freshness theorems: a registered probe referenced twice in one list. -/
+def probeEntry : Entry := { cfg := { selector := ["m", "f"], sig := {} }, objId := 1 }
+def probeState : State :=
+  { initState with registry := (initState.registry.set ["m", "f"] probeEntry) }
+def twice : Option Val :=
+  match evalVal 10 probeState ["a"] (.list [.ref [] ["m", "f"] true, .ref [] ["m", "f"] true]) with
+  | .ok (_, v) => some v | .error _ => none
+example : twice = some (.list [.result ["m", "f"] 0, .result ["m", "f"] 1]) := by rfl
 
 end Gin.C04
